@@ -67,6 +67,13 @@ func c09Gen(t *rapid.T) c09Scenario {
 			}
 			tx.Faults[key] = rapid.SampledFrom([]string{"T", "P", "T421"}).Draw(t, "class")
 		}
+		if rapid.IntRange(0, 11).Draw(t, "slowrcpt") == 0 {
+			// the reply to one RCPT comes later than command_timeout allows (and the next hop refuses another recipient, likely)
+			tx.Faults[fmt.Sprintf("rcpt:%d", rapid.SampledFrom(tx.Rcpts).Draw(t, "slow_rcpt"))] = "slow"
+			if other := rapid.SampledFrom(tx.Rcpts).Draw(t, "refused_rcpt"); tx.Faults[fmt.Sprintf("rcpt:%d", other)] == "" {
+				tx.Faults[fmt.Sprintf("rcpt:%d", other)] = "P"
+			}
+		}
 		switch rapid.IntRange(0, 9).Draw(t, "bodyfault") {
 		case 0:
 			tx.Faults["bodyopen"] = "io"
@@ -122,6 +129,8 @@ func c09Target(hopAddr string) *Target {
 		limits:         &limits.Group{},
 		pool:           pool.New(pool.Config{MaxKeys: 5000, MaxConnsPerKey: 5, MaxConnLifetimeSec: 150, StaleKeyLifetimeSec: 300}),
 		connReuseLimit: 10,
+		// replies scripted as "slow" come later than that
+		commandTimeout: 150 * time.Millisecond,
 	}
 }
 
@@ -161,6 +170,15 @@ func c09Run(sc c09Scenario) (vs []ev.V) {
 		for _, r := range tx.Rcpts {
 			if err := d.AddRcpt(ctx, c09Rcpts[r], smtp.RcptOptions{}); err == nil {
 				accepted = append(accepted, c09Rcpts[r])
+			}
+		}
+		// what the next hop refused is not accepted by the target, whatever else happened on the connection
+		for _, a := range accepted {
+			for k, cls := range tx.Faults {
+				var idx int
+				if n, _ := fmt.Sscanf(k, "rcpt:%d", &idx); n == 1 && c09Rcpts[idx] == a && cls != "slow" {
+					vs = append(vs, ev.Vf("rcpt:accepted-although-next-hop-refused", "transaction %d (faults %v, connection reused=%v): AddRcpt(%q) succeeded, the next hop answers RCPT for this address with a %s failure", ti, tx.Faults, ti > 0 && hop.Sessions() == before, a, cls))
+				}
 			}
 		}
 		col := &c09Collector{}
